@@ -343,3 +343,6 @@ def run(ctx):
              "site by call site (model probe hooks, model_probe, emu_init) to main's exit status")
     from rules import round3
     round3.check_probe_failure_propagates(ctx, "R14.6")
+    ctx.rule("R14.7", "version components are decimal: version_parse converts them with base 10")
+    from rules import round4
+    round4.check_version_decimal(ctx, "R14.7")
